@@ -242,16 +242,42 @@ func runC16Pmerge(c *Ctx, r *Rep) {
 	}
 	r.analysed("py.pmerge")
 	// outer loop over the lists, inner loop calling tail_contains
+	// the scan loop: the innermost loop whose body (nested loops aside) accepts a candidate — appends to the accumulator
 	var outer *ast.ForStmt
-	ast.Inspect(fd.Body, func(n ast.Node) bool {
-		if f, ok := n.(*ast.ForStmt); ok && outer == nil {
-			outer = f
-			return false
+	var accept *ast.ExprStmt
+	var enclosing []*ast.ForStmt // loops around the scan loop, outermost first
+	{
+		var stack []*ast.ForStmt
+		var visit func(n ast.Node)
+		visit = func(n ast.Node) {
+			ast.Inspect(n, func(m ast.Node) bool {
+				if m == nil || m == n {
+					return true
+				}
+				switch x := m.(type) {
+				case *ast.FuncLit:
+					return false
+				case *ast.ForStmt:
+					stack = append(stack, x)
+					visit(x.Body)
+					stack = stack[:len(stack)-1]
+					return false
+				case *ast.ExprStmt:
+					if call, ok := x.X.(*ast.CallExpr); ok && outer == nil && len(stack) > 0 {
+						if sel, ok := call.Fun.(*ast.SelectorExpr); ok && sel.Sel.Name == "Append" {
+							outer = stack[len(stack)-1]
+							accept = x
+							enclosing = append([]*ast.ForStmt(nil), stack[:len(stack)-1]...)
+						}
+					}
+				}
+				return true
+			})
 		}
-		return true
-	})
+		visit(fd.Body)
+	}
 	if outer == nil {
-		r.undecided("c3|outer loop", fd.Pos(), "no loop found in pmerge")
+		r.undecided("c3|outer loop", fd.Pos(), "no loop accepting a candidate (appending to the accumulator) found in pmerge")
 		return
 	}
 	var inner *ast.ForStmt
@@ -311,13 +337,75 @@ func runC16Pmerge(c *Ctx, r *Rep) {
 			fmt.Sprintf("the loop that rejects a candidate found in the tail of a list runs from %s to %s, the lists to merge from %s to %s: C3 takes a candidate only if it is in the tail of NO list, including the ones before the one it heads — otherwise an inconsistent hierarchy is accepted with some order instead of TypeError", ii, il, oi, ol))
 	}
 	// the candidate is the head of the current list (remain index), and acceptance restarts the scan
+	// what ends the acceptance: the statement list that holds the Append, from there on
 	restarts := false
+	var tail []ast.Stmt
 	ast.Inspect(outer.Body, func(n ast.Node) bool {
-		if b, ok := n.(*ast.BranchStmt); ok && b.Tok == token.GOTO && b.Label != nil && b.Label.Name == "again" {
-			restarts = true
+		var list []ast.Stmt
+		switch b := n.(type) {
+		case *ast.BlockStmt:
+			list = b.List
+		case *ast.CaseClause:
+			list = b.Body
+		}
+		for i, st := range list {
+			if st == ast.Stmt(accept) {
+				tail = list[i+1:]
+			}
 		}
 		return true
 	})
+	labelPos := map[string]token.Pos{}
+	labelOf := map[ast.Stmt]string{}
+	ast.Inspect(fd.Body, func(n ast.Node) bool {
+		if ls, ok := n.(*ast.LabeledStmt); ok {
+			labelPos[ls.Label.Name] = ls.Pos()
+			labelOf[ls.Stmt] = ls.Label.Name
+		}
+		return true
+	})
+	flags := map[string]bool{} // boolean locals set true while accepting
+	for _, st := range tail {
+		switch x := st.(type) {
+		case *ast.AssignStmt:
+			if len(x.Lhs) == 1 && len(x.Rhs) == 1 && exprStr(x.Rhs[0]) == "true" {
+				flags[exprStr(x.Lhs[0])] = true
+			}
+		case *ast.BranchStmt:
+			switch {
+			case x.Tok == token.GOTO && x.Label != nil && labelPos[x.Label.Name] != token.NoPos && labelPos[x.Label.Name] <= outer.Pos():
+				restarts = true // back to a point in front of the scan
+			case x.Tok == token.CONTINUE && x.Label != nil:
+				for _, e := range enclosing {
+					if labelOf[e] == x.Label.Name {
+						restarts = true // next round of a loop around the scan: the scan starts over
+					}
+				}
+			case x.Tok == token.BREAK && (x.Label == nil || labelOf[outer] == x.Label.Name) && len(enclosing) > 0:
+				// leaves the scan; the loop around it must go round again because something was taken
+				enc := enclosing[len(enclosing)-1]
+				after := false
+				for _, es := range enc.Body.List {
+					base := es
+					if ls, ok := es.(*ast.LabeledStmt); ok {
+						base = ls.Stmt
+					}
+					if base == ast.Stmt(outer) {
+						after = true
+						continue
+					}
+					if !after {
+						continue
+					}
+					if is, ok := es.(*ast.IfStmt); ok && len(is.Body.List) == 1 {
+						if bs, ok := is.Body.List[0].(*ast.BranchStmt); ok && bs.Tok == token.CONTINUE && flags[exprStr(is.Cond)] {
+							restarts = true
+						}
+					}
+				}
+			}
+		}
+	}
 	r.check(restarts, "c3|restart after acceptance", outer.Pos(), "after a candidate is accepted the scan restarts from the first list",
 		"after accepting a candidate the scan does not restart from the first list (C3 always prefers the earliest list whose head is acceptable)")
 }
